@@ -406,3 +406,9 @@ def nontrivial(case, impl):
 def sig(case, impl):
     r = (impl or {}).get("err", {}).get("reason") if isinstance(impl, dict) else None
     return case.get("_sig", "") + "|" + str(r)
+
+
+def check_facts(facts):
+    """the repairs this property relies on sit in two or more functions: see c07.check_calls"""
+    from . import c07
+    return c07.check_calls(facts)
